@@ -1,9 +1,9 @@
 SPECIFICATION Spec
 CONSTANTS
   NPaths = 3
-  Contents = {"ClsDoc", "ClsPlain", "ClsField", "UseFoo", "GInt", "ReqB", "Mod"}
+  Contents = {"ClsDoc", "ClsField", "GInt", "ReqB", "UseFoo", "ClsSub"}
   Ops = {"update", "unset", "remove"}
-  MaxSteps = 4
+  MaxSteps = 3
   EditDist = 3
   Batch = FALSE
   EmitSel = "removal"
